@@ -25,7 +25,7 @@ def rStopping : CPc → Bool
   | .rStopSet | .rJoin => true
   | _ => false
 
-def exitPc : CPc → Bool
+def exitPhasePc : CPc → Bool
   | .exitPut _ | .exitJoin _ | .done => true
   | _ => false
 
@@ -93,14 +93,14 @@ structure ReplI (s : St) : Prop where
   rNotIdle : s.rAlive = true → s.rpc ≠ .idle
   tokR : noneCount s.replQ = if rStopping s.cpc = true ∧ s.rAlive = true then 1 else 0
   exitedL : ∀ w ∈ s.workers, w.pc = .exited → w.wid ∈ s.procs →
-    exitPc s.cpc = true ∨ (s.cfg.factory = true ∧ w.wid ∈ pending s)
-  noStop : exitPc s.cpc = false → none ∉ s.workQ
+    exitPhasePc s.cpc = true ∨ (s.cfg.factory = true ∧ w.wid ∈ pending s)
+  noStop : exitPhasePc s.cpc = false → none ∉ s.workQ
   rFac : (s.cpc = .rPutNone ∨ s.cpc = .rStopSet ∨ s.cpc = .rJoin) → s.cfg.factory = true
 
 /-- the consumer's side: tokens, reorder buffer, flow control -/
 structure ConsI (s : St) : Prop where
   curSome : setupPc s.cpc = true → s.cur.isSome
-  curNone : exitPc s.cpc = true → s.cur = none
+  curNone : exitPhasePc s.cpc = true → s.cur = none
   wokenPc : s.woken = true → cIn s.cpc = true
   token : getPathPc s.cpc = true → s.batch = [] → s.woken = false → s.fpc = .idle → s.finished = s.fTotal → none ∈ s.resQ
   wfBuf : s.wf ∉ s.buffer
@@ -110,8 +110,8 @@ structure ConsI (s : St) : Prop where
 /-- counting live workers against stop orders -/
 structure CntI (s : St) : Prop where
   cnt1 : liveCnt s + (pending s).length ≤ s.procs.length
-  cnt2 : exitPc s.cpc = true → liveCnt s + stopsSent s ≤ noneCount s.workQ + s.procs.length
-  cnt3 : exitPc s.cpc = true → noneCount s.workQ ≤ stopsSent s
+  cnt2 : exitPhasePc s.cpc = true → liveCnt s + stopsSent s ≤ noneCount s.workQ + s.procs.length
+  cnt3 : exitPhasePc s.cpc = true → noneCount s.workQ ≤ stopsSent s
   cnt4 : s.cfg.factory = false → noneCount s.workQ + s.procs.length ≤ liveCnt s + stopsSent s
 
 structure LiveInv (s : St) : Prop where
